@@ -404,6 +404,11 @@ def extract_scenarios(tlc_out, path, prop, mc):
                     continue
                 if flt == "distinct" and sc["steps"][0].get("other") != 0:
                     continue
+                # TLC's ToJson cannot write null: the models write a null string cell as the byte string <<0>>
+                for st in sc.get("steps", []):
+                    for d in st.get("data", []) or []:
+                        if isinstance(d.get("strs"), list):
+                            d["strs"] = [None if v == [0] else v for v in d["strs"]]
                 n += 1
                 sc["id"] = base + n
                 sc["prop"] = prop
